@@ -347,7 +347,7 @@ type kase struct {
 	closeCalled        bool
 	closeRet           bool // an effective Close has returned
 	cancelCall         bool
-	closeCallAt        time.Time
+	lastCallAt         time.Time // latest close-call or cancel-call
 	afterClose         map[int]bool
 	lastDiscAt         time.Time
 	haveDisc           bool
@@ -408,13 +408,14 @@ func (c *kase) record(kind, what string) int {
 		}
 	case "close-call":
 		c.closeCalled, c.closeOutstanding = true, true
-		c.closeCallAt = now
+		c.lastCallAt = now
 		c.closeState = c.state
 		if c.state == stDisc {
 			c.inBackoffAtClose = true
 		}
 	case "cancel-call":
 		c.cancelCall = true
+		c.lastCallAt = now
 		c.closeState = c.state
 		if c.state == stDisc {
 			c.inBackoffAtClose = true
@@ -1106,8 +1107,15 @@ func runCase(r *vlib.Run, trial int, spec caseSpec) {
 		case <-tick.C:
 			c.mu.Lock()
 			idle := time.Since(c.lastEvent)
+			var sinceCall time.Duration
+			if !c.lastCallAt.IsZero() {
+				sinceCall = time.Since(c.lastCallAt)
+			}
 			c.mu.Unlock()
-			if idle > grace {
+			// Bounded progress: nothing at all happened for the grace period, or
+			// Close / cancel was issued that long ago and a call is still pending
+			// (a library that keeps retrying after Close produces events forever).
+			if idle > grace || sinceCall > grace {
 				stuck = true
 			}
 		}
@@ -1170,7 +1178,16 @@ func (c *kase) judgeStuck() {
 		if len(dump) > 60000 {
 			dump = dump[:60000]
 		}
-		c.viol = append(c.viol, violation{sig, fmt.Sprintf("%s within %v (1000 x RetryMaxDelay) and nothing at all happened in that time; the scripted transport is not holding anything (its reads return on context cancellation and on Close). Goroutine dump in the witness.", what, grace)})
+		after := 0
+		seen := false
+		for _, e := range c.events {
+			if e.Kind == "close-call" || e.Kind == "cancel-call" {
+				seen = true
+			} else if seen && e.Kind == "attempt" {
+				after++
+			}
+		}
+		c.viol = append(c.viol, violation{sig, fmt.Sprintf("%s within %v (1000 x RetryMaxDelay); %d new attempt(s) were started after the call; the scripted transport is not holding anything (its reads return on context cancellation and on Close). Goroutine dump in the witness.", what, grace, after)})
 		c.events = append(c.events, event{Tick: atomic.AddInt64(&globalTick, 1), AtUS: time.Since(c.start).Microseconds(), Kind: "watchdog", What: dump})
 	}
 }
